@@ -229,10 +229,16 @@ def check_case(prog, inputs, res, label):
         if len(want) != len(gotr):
             violation("trace:length", f"{len(gotr)} read events, model has {len(want)}")
             return
+        def same(a, b):
+            # the monitor never iterates a lazy list: {"x": "lazy"} stands for any list
+            if a == {"x": "lazy"} or a == {"x": "list"}:
+                return isinstance(b, list)
+            if isinstance(a, list) and isinstance(b, list):
+                return len(a) == len(b) and all(same(x, y) for x, y in zip(a, b))
+            return a == b
+
         for i, (w, g) in enumerate(zip(want, gotr)):
-            if g[2] == {"x": "lazy"}:
-                g = [g[0], g[1], w[2]]
-            if w != g:
+            if w[:2] != g[:2] or not same(g[2], w[2]):
                 violation("trace:event", f"read event #{i + 1} is {g!r}, model says {w!r}")
                 return
     if len(res["samples"]) < 3 and reads:
